@@ -171,6 +171,11 @@ theorem intoArguments_denote (p : PyArguments) (hk : p.kwDefaults.length ≤ p.k
     rw [List.take_left' hl, List.drop_left' hl]
     simp
 
+/-- no arithmetic underflow in the repaired `into_arguments` either -/
+theorem intoArguments_no_underflow (p : PyArguments)
+    (h : p.defaults.length ≤ p.posonly.length + p.args.length) : (intoArguments p).isSome = true := by
+  rw [intoArguments_some p h]; rfl
+
 /-- C14, first sentence: the round trip preserves the signature — every well-formed signature,
     any number of parameters of each kind, any subset of keyword-only defaults. -/
 theorem roundtrip (a : Arguments) (h : wellFormed a) :
